@@ -236,3 +236,15 @@ Print Assumptions C15_tie_machine_run_refused_unless_initialized.
 Print Assumptions C15_tie_machine_reset_refused_while_running.
 Print Assumptions C15_tie_machine_enter_run.
 Print Assumptions C15_tie_machine_flags.
+
+(** ---- stage 2: Imp.run from the two regenerated sources together (Life/MachineImpTie.v): lock held; the trigger `run`
+    (refused -> MachineError out of the `async with`, lock released); release; then run_session / run_continue_and_wait
+    go on to wait for the run, the others return *)
+From NL Require Life.MachineImpTie.
+Theorem C15_tie_machine_imp_run : forall s t c, enter_run s t c = MachineImpTie.imp_run "run"%string t c s.
+Proof. exact MachineImpTie.imp_run_run. Qed.
+Theorem C15_tie_machine_imp_run_epilogue : forall s t c,
+  MachineTie.epilogue t c FsmConfig.TRun s = MachineImpTie.derived_epilogue "run"%string t c s.
+Proof. exact MachineImpTie.imp_epilogue_run. Qed.
+Print Assumptions C15_tie_machine_imp_run.
+Print Assumptions C15_tie_machine_imp_run_epilogue.
